@@ -732,7 +732,7 @@ class ExprMixin(object):
                     sq = self.vlist(s2, Val.vl(c.z))
                     out += self.contains(s2, sq, self.coerce(x, VAL) or x, node)
                 else:
-                    out += self.contains(s2, SV(STR, Val.vs(c.z)), x, node)
+                    out += self.contains(s2, c, x, node)
             if rest is not None:
                 out += self.raise_(rest, 'TypeError', node)
             return out
@@ -999,11 +999,13 @@ class ExprMixin(object):
                     elem.z == 0, z3.Select(arrs_[0], elem.z)))))
             st_b = self.bind_target(st_b, g.target, elem, g)
             self.spec_mode += 1
+            self.binder_stack = getattr(self, 'binder_stack', []) + [j]
             try:
                 conds = [self.truthy(st_b, self.ev1(c, st_b)) for c in g.ifs]
                 fval = self.ev1(e.elt, st_b)
             finally:
                 self.spec_mode -= 1
+                self.binder_stack = self.binder_stack[:-1]
             cond = zand(conds)
             from . import rely as _rely
             if _rely.is_pending(fval) and fval.py[1] == 'call':
